@@ -170,19 +170,32 @@ def stepMore (st : St) (fields : List String) : Option (M St) :=
       | _ => .error "bad-slice"
   | "atleast_3d" :: _ => some (unary st (transferAtleastNd 3) (fun s => some (refAtleastNd 3 s)))
   | "mulscalar" :: _ => some (unary st transferMulScalar some)
-  | "where" :: _ => some do
-      -- view::where(a, a, b): condition and x are the first operand
-      let ((j, sb), st) ← pop1 st
-      let ((i, sa), st) ← pop1 st
-      let o ← need (transferWhere i i j) "transfer"
-      let t ← need (refBroadcast3 sa sa sb) "ref-shape"
-      pure { st with stack := (o, t) :: st.stack }
   | "matmul" :: _ => some do
       let ((j, sb), st) ← pop1 st
       let ((i, sa), st) ← pop1 st
       let o ← need (transferMatmul i j) "transfer"
       let t ← need (refMatmul sa sb) "ref-shape"
       pure { st with stack := (o, t) :: st.stack }
+  | name :: pat :: _ =>
+    if name == "where" || name == "bcast3" then some do
+      -- operand pattern: a = first array, b = second array, s = number literal
+      let chars := pat.toList
+      let (b?, st) ← (if chars.contains 'b' then do let (x, st') ← pop1 st; pure (some x, st') else pure (none, st) : M (Option (SInfo × Shape) × St))
+      let (a, st) ← pop1 st
+      let ops ← chars.mapM (fun ch => match ch with
+        | 'a' => pure a
+        | 'b' => need b? "pattern"
+        | 's' => pure (scalarInfo, ([] : Shape))
+        | _ => .error "bad-pattern")
+      match ops with
+      | [c, x, y] =>
+        let (o, t) ← (if name == "where" then do
+            let o ← need (transferWhere c.1 x.1 y.1) "transfer"; let t ← need (refBroadcast3 c.2 x.2 y.2) "ref-shape"; pure (o, t)
+          else do
+            let o ← need (transferBroadcast3 c.1 x.1 y.1) "transfer"; let t ← need (refBroadcast3 c.2 x.2 y.2) "ref-shape"; pure (o, t) : M (SInfo × Shape))
+        pure { st with stack := (o, t) :: st.stack }
+      | _ => .error "bad-pattern"
+    else none
   | _ => none
 
 def step (st : St) (tok : String) : M St := do
